@@ -308,7 +308,8 @@ def judge(res: core.Res, label: str, paths: List[str], fmt: str, o: Outcome, w: 
                         if text is not None:
                             res.c('quoted_message_files_checked')
                             # (field tags are case-insensitive: the message quotes them in lower case, whatever the docstring spells)
-                            if token not in text and not (mm.group(0).startswith('Unknown field') and token.lower() in text.lower()):
+                            # ('newfield' is the tag of the field pydoctor itself makes up for a consolidated field it cannot split: nothing of the docstring)
+                            if token not in text and not (mm.group(0).startswith('Unknown field') and (token.lower() in text.lower() or token == 'newfield')):
                                 res.v('C01:message-names-wrong-file', f'{label}: {m[1][:200]!r}: the file named does not contain {token!r}', **w)
     # artefacts
     res.c('artefact_checks')
